@@ -1,7 +1,7 @@
 SPECIFICATION Spec
 CONSTANTS Routers <- AllRouters
           SyncRouters = {"eth", "bsc", "ont", "cosmos"}
-          Gen = {"g1", "g2"}
+          Gen = {"g1", "g2", "ghi"}
           Bad = {"bad"}
           Shape <- ShapeGuard
           D = 3
